@@ -6,20 +6,22 @@
 (***************************************************************************)
 EXTENDS Hash, Json
 
-CONSTANTS N,          \* number of chunks
-          SMs, Legals \* option values explored
+CONSTANTS N,                  \* number of chunks
+          SMs, Legals,        \* option values explored
+          HEs, HAs, PPs, LVs, \* entry/asset template has [hash], public path set, legal comment present
+          LIHs                \* FALSE = the code as it is, TRUE = the candidate repair
 
 Chunks == 1..N
 Assets == {"x"}
 
-Opts == [hE : BOOLEAN, hK : (IF N > 2 THEN BOOLEAN ELSE {TRUE}), hA : BOOLEAN, pp : BOOLEAN, sm : SMs, legal : Legals, lv : 0..1]
+Opts == [hE : HEs, hK : (IF N > 2 THEN BOOLEAN ELSE {TRUE}), hA : HAs, pp : PPs, sm : SMs, legal : Legals, lv : LVs, lih : LIHs]
 
 Graphs == {f \in [Chunks -> SUBSET Chunks] : \A c \in Chunks : c \notin f[c]}
 
 World(o, imp, aref) ==
-  [ chunks |-> Chunks, assets |-> Assets, imp |-> imp, aref |-> aref,
+  [ chunks |-> Chunks, assets |-> Assets, names |-> <<>>, imp |-> imp, aref |-> aref,
     hashedC |-> [c \in Chunks |-> IF c <= 2 THEN o.hE ELSE o.hK], hashedA |-> o.hA,
-    pp |-> o.pp, sm |-> o.sm, legal |-> o.legal,
+    pp |-> o.pp, sm |-> o.sm, legal |-> o.legal, lih |-> o.lih,
     fake |-> [c \in Chunks |-> c = 1],
     code |-> [c \in Chunks |-> 0], parts |-> [c \in Chunks |-> 0], tmpl |-> [c \in Chunks |-> 0],
     smap |-> [c \in Chunks |-> 0], legalv |-> [c \in Chunks |-> o.lv], ppv |-> 0,
@@ -48,19 +50,20 @@ Chosen == w # NoWorld
 W2 == Apply1(w, e)
 
 \* all four properties in one pass (the files of both worlds are computed once)
-AllHold == Chosen => Failing(w, W2) = {}
+\* (for the design with the candidate repair; the code as it is is reported below)
+AllHold == (Chosen /\ w.lih) => Failing(w, W2) = {}
 InvSamePathSameBytes == Chosen => SamePathSameBytes(w, W2)
 InvChangePropagates == Chosen => ChangePropagates(w, W2)
 InvRefsResolve == Chosen => (RefsResolve(w) /\ RefsResolve(W2))
 InvNoPlaceholderSurvives == Chosen => (NoPlaceholderSurvives(w) /\ NoPlaceholderSurvives(W2))
 
 \* the edit really changes some emitted bytes in at least some worlds (the checks are not vacuous)
-Effective == {[p |-> f.path, b |-> f.bytes] : f \in Files(w)} # {[p |-> f.path, b |-> f.bytes] : f \in Files(W2)}
+Effective == {[p |-> f.path, b |-> f.q_bytes] : f \in Files(w)} # {[p |-> f.path, b |-> f.q_bytes] : f \in Files(W2)}
 
 \* candidate export for the transcription of the code as it is: which classes
 \* of (edit, options) falsify which invariant on the model (guard 3: these are
 \* candidates to be reproduced on the real code, not verdicts)
 Report ==
-  LET F == IF Chosen THEN Failing(w, W2) ELSE {}
+  LET F == IF Chosen /\ ~w.lih THEN Failing(w, W2) ELSE {}
   IN F = {} \/ PrintT(<<"CASE", ToJson([edit |-> e.k, legal |-> w.legal, sm |-> w.sm, lv |-> w.legalv[1], failing |-> F])>>)
 =============================================================================
